@@ -139,7 +139,7 @@ fn c13_hit_condition_2() {
 //@ harness: c13_hit_condition_3
 //@ property: C13
 //@ obligation: H-C13-a
-//@ tier: thorough
+//@ tier: quick
 //@ encodes: HitCondition::{parse, matches}
 //@ symbolic: 3 bytes of text over [0-9<>= ], the hit count (u64)
 //@ bounds: text length 3 (instance); unwind 5
